@@ -636,7 +636,9 @@ pub fn run(thorough: bool, _threads: usize, name: &'static str) -> JobResult {
     };
     sched::own_select();
     let mut shared = if logging {
-        std::env::set_var("CLN_PLUGIN_LOG", "trace");
+        if std::env::var("CLN_PLUGIN_LOG").is_err() {
+            std::env::set_var("CLN_PLUGIN_LOG", "info");
+        }
         match Instance::new(true) {
             Ok(i) => Some(i),
             Err(e) => {
@@ -732,7 +734,7 @@ pub fn run(thorough: bool, _threads: usize, name: &'static str) -> JobResult {
         run_set("E4 all interleavings of message feeds and completions", &mut eps.into_iter(), logging, &mut shared, &mut result, &mut outcomes);
     }
     // E5: short / pending writes at every poll_write index (one or two deviations)
-    if !logging {
+    {
         let mut eps: Vec<Episode> = Vec::new();
         let base = interleavings(&st0, 0);
         let picks = [0usize, base.len() / 2, base.len() - 1];
@@ -759,7 +761,7 @@ pub fn run(thorough: bool, _threads: usize, name: &'static str) -> JobResult {
         run_set("E5 short and pending writes", &mut eps.into_iter(), logging, &mut shared, &mut result, &mut outcomes);
     }
     // E6: the driver's select! start branch
-    if !logging {
+    {
         let mut eps: Vec<Episode> = Vec::new();
         let base = interleavings(&st0, 0);
         for (bi, b) in base.iter().enumerate() {
@@ -790,11 +792,51 @@ pub fn run(thorough: bool, _threads: usize, name: &'static str) -> JobResult {
     result.states = outcomes.len() as u64;
     result.distinct_outcomes = outcomes.len() as u64;
     result.rule = Some(format!(
-        "engine F{}: real cln_plugin Builder/driver/codec over in-memory pipes; node stream = handshake + 4 messages ({} bytes: two hook calls, one method call with a string id, one notification; multi-byte characters, escaped and literal single newlines, one pretty-printed body); enumerated: every single cut point x all 6 handler completion orders, every pair of cut points, the all-single-bytes partition, every interleaving of message-sized feeds with handler completions, short/pending writes at each of the first 12 poll_write calls, select! start-branch deviations at every step{}; oracle: handlers invoked once per request in order with the sent params, output = complete JSON documents each followed by exactly one blank line, reply ids = request ids, replies echo their own request, nothing for notifications",
+        "engine F{}: real cln_plugin Builder/driver/codec over in-memory pipes; node stream = handshake + 4 messages ({} bytes: two hook calls, one method call with a string id, one notification; multi-byte characters, escaped and literal single newlines, one pretty-printed body); enumerated (per-set episode counts are in `extra`; with logging on the pair/triple cut sets are skipped): every single cut point x all 6 handler completion orders, every pair of cut points, the all-single-bytes partition, every interleaving of message-sized feeds with handler completions, short/pending writes at each of the first 12 poll_write calls, select! start-branch deviations at every step{}; oracle: handlers invoked once per request in order with the sent params, output = complete JSON documents each followed by exactly one blank line, reply ids = request ids, replies echo their own request, nothing for notifications",
         if logging { " (logging on, one long-lived instance, episodes from the idle state)" } else { "" },
         n,
         if thorough { ", every triple of cut points among the interesting offsets (separators, multi-byte characters, escapes)" } else { "" }
     ));
     result.samples = vec![json!({"stream_utf8": String::from_utf8_lossy(&st0.bytes).chars().take(400).collect::<String>()}), json!({"episode": episode_cuts(&st0, 0, &[st0.boundaries[0] - 1, st0.boundaries[0] + 3], &orders[3]).describe()})];
     result
+}
+
+
+/// The logging-on variant runs in a child process (one long-lived instance, see the module comment).
+pub fn run_logging_child(thorough: bool, _threads: usize, name: &'static str) -> JobResult {
+    let exe = match std::env::current_exe() {
+        Ok(e) => e,
+        Err(e) => {
+            return JobResult {
+                name: name.to_string(),
+                engine: "F".into(),
+                error: Some(format!("current_exe: {}", e)),
+                ..Default::default()
+            }
+        }
+    };
+    let out = std::process::Command::new(exe).args(["__flog", if thorough { "thorough" } else { "quick" }]).env("CLN_PLUGIN_LOG", "info").output();
+    match out {
+        Ok(o) if o.status.success() => match serde_json::from_slice::<Value>(&o.stdout) {
+            Ok(v) => crate::result_from_json(&v, ""),
+            Err(e) => JobResult {
+                name: name.to_string(),
+                engine: "F".into(),
+                error: Some(format!("bad child output: {} :: {}", e, String::from_utf8_lossy(&o.stdout).chars().take(300).collect::<String>())),
+                ..Default::default()
+            },
+        },
+        Ok(o) => JobResult {
+            name: name.to_string(),
+            engine: "F".into(),
+            error: Some(format!("child failed: {} {}", o.status, String::from_utf8_lossy(&o.stderr).chars().take(600).collect::<String>())),
+            ..Default::default()
+        },
+        Err(e) => JobResult {
+            name: name.to_string(),
+            engine: "F".into(),
+            error: Some(format!("spawn: {}", e)),
+            ..Default::default()
+        },
+    }
 }
